@@ -27,6 +27,8 @@ pub use instruction::{Instruction, InstructionRegister};
 pub use microprogram_ram::{MicroprogramRam, Word};
 pub(crate) use raw::Interrupt;
 pub use raw::{RawMachine, Signals, State};
+#[cfg(feature = "verif-hooks")]
+pub use raw::VerifSnapshot;
 pub use register::{Flags, Register, RegisterNumber};
 
 /// A higher level abstraction over the [`RawMachine`].
